@@ -30,6 +30,7 @@ mod c11;
 mod c11b;
 mod c05;
 mod c05b;
+mod certd;
 
 use std::io::{BufRead, Write};
 
@@ -88,11 +89,20 @@ fn lookup(id: &str) -> Option<(&'static str, Gen, Exec)> {
         "C02" => Some(("C02", c02::generate, c02::exec)),
         "C10" => Some(("C10", c10::generate, c10::exec)),
         "C09" => Some(("C09", c09::generate, c09::exec)),
-        "C04" => Some(("C04", c04::generate, c04::exec)),
+        "C04" => Some(("C04", c04_generate, c04_exec)),
         "C11" => Some(("C11", c11_generate, c11_exec)),
         "C05" => Some(("C05", c05_generate, c05_exec)),
         _ => None,
     }
+}
+
+fn c04_generate(ctx: &mut Ctx) {
+    c04::generate(ctx);
+    certd::generate_into(ctx, &c04::mutate_any, &c04::systematic);
+}
+
+fn c04_exec(toks: &[&str]) -> String {
+    if toks.first() == Some(&"certd") { certd::exec(toks) } else { c04::exec(toks) }
 }
 
 fn c11_generate(ctx: &mut Ctx) {
